@@ -382,7 +382,9 @@ impl Ord for Iri {
 
 impl Hash for Iri {
 	fn hash<H: hash::Hasher>(&self, state: &mut H) {
-		self.parts().hash(state)
+		// Hash as the reference view does: `Borrow<IriRef>` requires both views
+		// of one value to hash identically.
+		self.as_iri_ref().hash(state)
 	}
 }
 
